@@ -109,6 +109,21 @@ with children_of (its : litems) : list node :=
   | IText _ _ r => children_of r
   end.
 
+(* what "sorted by key, the last duplicate wins" means, independently of pm_insert *)
+Fixpoint pm_find (k : str) (m : pmap) : option str :=
+  match m with
+  | [] => None
+  | (k', v) :: m' => if str_eqb k k' then Some v else pm_find k m'
+  end.
+Fixpoint pm_sorted (m : pmap) : Prop :=
+  match m with
+  | [] => True
+  | (k, _) :: m' => match m' with [] => True | (k', _) :: _ => str_cmp k k' = Lt end /\ pm_sorted m'
+  end.
+(* the value of the last property named k in document order *)
+Definition last_prop (k : str) (ps : list lprop) : option str :=
+  fold_left (fun o p => if str_eqb k (lp_name p) then Some (lp_val p) else o) ps None.
+
 (* XMLDoc: a nameless root whose children are the top-level nodes *)
 Definition doc_of (d : ldoc) : node := Node [] [] [] (children_of (ld_items d)).
 
@@ -188,3 +203,11 @@ Definition wf_doc (d : ldoc) : bool :=
 (* the result of readXML on a rendered document, for the driver:
    (is it in the subset, its bytes, the demanded tree) *)
 Definition render_case (d : ldoc) : bool * str * node := (wf_doc d, render_doc d, doc_of d).
+
+(* ------------------------------------------- example data (non-vacuity Examples) *)
+(* <?xml version="1.0" enc='u'?>\n<!-- top --> <r a="1" b = 'it\'s'\ta="2">\n <x/> text here\v<!-- in --><y k="v"></y></r>\n<s/> *)
+Definition ex_doc : ldoc :=
+  LDoc (HProps 32 [] [LProp [118; 101; 114; 115; 105; 111; 110] [] [] true [49; 46; 48] [32]; LProp [101; 110; 99] [] [] false [117] []]) [10] (IComment [45; 45; 32; 116; 111; 112; 32] [32] (IChild (LOpen [114] [32] [LProp [97] [] [] true [49] [32]; LProp [98] [32] [32] false [105; 116; 92; 39; 115] [9]; LProp [97] [] [] true [50] []] [10; 32] (IChild (LSelf [120] [] []) [32] (IText [116; 101; 120; 116; 32; 104; 101; 114; 101] [11] (IComment [45; 45; 32; 105; 110; 32] [] (IChild (LOpen [121] [32] [LProp [107] [] [] true [118] []] [] INil) [] INil))))) [10] (IChild (LSelf [115] [] []) [] INil))).
+(* <a>x </a> : the text ends with a blank, outside the subset (the reader trims it) *)
+Definition ex_doc_not_wf : ldoc :=
+  LDoc HNone [] (IChild (LOpen [97] [] [] [] (IText [120; 32] [] INil)) [] INil).
